@@ -248,6 +248,12 @@ func (x *Exec) locPrefixStatic(k *FuncContract, t callTarget, c *ssa.CallCommon,
 		}
 		return "ghost:" + g, true
 	}
+	if strings.HasPrefix(loc, "dyn(") {
+		return "", false
+	}
+	if strings.HasPrefix(loc, "global ") {
+		return "global:" + strings.TrimSpace(strings.TrimPrefix(loc, "global ")), true
+	}
 	names, tys := x.contractParams(k, t, c)
 	e, err := ParseExpr(strings.Replace(strings.Replace(loc, ".*", ".ALL__", 1), "[..]", "[0]", 1))
 	if err != nil {
@@ -359,6 +365,9 @@ func (x *Exec) call(st *State, fn *ssa.Function, ins ssa.Value, c *ssa.CallCommo
 	}
 	// unknown callee: result unconstrained, whole heap havocked
 	x.noteUnknown(t.name)
+	if insI, ok := ins.(ssa.Instruction); ok {
+		x.frameCheck(st, insI, "*", "", "", "the whole heap (unknown callee "+shortName(t.name)+")")
+	}
 	st.havocAll(t.name)
 	res := st.fresh(c.Signature().Results(), "ret:"+shortName(t.name))
 	if c.Signature().Results().Len() == 1 {
@@ -477,9 +486,11 @@ func (x *Exec) applyContract(st *State, ins ssa.Instruction, t callTarget, c *ss
 	}
 	// frame
 	if !k.HasMod {
+		x.frameCheck(st, ins, "*", "", "", "the whole heap (callee "+shortName(t.name)+" has no modifies clause)")
 		st.havocAll(t.name)
 	} else {
 		for _, loc := range k.Modifies {
+			x.calleeFrame(st, ins, sc, loc)
 			x.havocLoc(st, sc, loc)
 		}
 	}
@@ -547,6 +558,21 @@ func (x *Exec) havocLoc(st *State, sc *SpecCtx, loc string) {
 		nv := st.freshName("H:ghost:" + g)
 		st.declare(nv, "(Array Int "+sort+")")
 		st.heap.m["ghost:"+g] = nv
+		return
+	}
+	if strings.HasPrefix(loc, "dyn(") {
+		v, ok := dynArg(sc, loc)
+		if ok && len(v.Fs) == 1 && v.Fs[0].K == VRef {
+			a := sc.derefAddr(v.Fs[0], nil)
+			st.storeAt(a, st.fresh(a.Ty, "hv"))
+			return
+		}
+		st.havocAll("modifies " + loc)
+		return
+	}
+	if strings.HasPrefix(loc, "global ") {
+		// package variable: forget its value
+		st.havocPrefix("global:" + strings.TrimSpace(strings.TrimPrefix(loc, "global ")))
 		return
 	}
 	all := false
@@ -703,3 +729,64 @@ type dummyValue struct{ *ssa.Defer }
 func (d dummyValue) Name() string                  { return "defer" }
 func (d dummyValue) Type() types.Type              { return types.NewTuple() }
 func (d dummyValue) Referrers() *[]ssa.Instruction { return nil }
+
+// calleeFrame checks that a location a callee may modify lies inside the caller's own frame.
+func (x *Exec) calleeFrame(st *State, ins ssa.Instruction, sc *SpecCtx, loc string) {
+	if !st.hasFrame {
+		return
+	}
+	loc = strings.TrimSpace(loc)
+	switch {
+	case loc == "heap":
+		x.frameCheck(st, ins, "*", "", "", "the whole heap (callee modifies heap)")
+	case strings.HasPrefix(loc, "ghost "):
+		g := strings.TrimSpace(strings.TrimPrefix(loc, "ghost "))
+		root := ""
+		if i := strings.Index(g, "("); i >= 0 && strings.HasSuffix(g, ")") {
+			if e, err := ParseExpr(g[i+1 : len(g)-1]); err == nil {
+				v := sc.eval(e)
+				if v.K == VAddr {
+					v = st.addrToRef(v)
+				}
+				root = v.T
+			}
+			g = g[:i]
+		}
+		x.frameCheck(st, ins, "ghost:"+g, root, "", "ghost "+g)
+	case strings.HasPrefix(loc, "dyn("):
+		v, ok := dynArg(sc, loc)
+		if !ok {
+			return
+		}
+		if len(v.Fs) == 1 && v.Fs[0].K == VRef {
+			a := sc.derefAddr(v.Fs[0], nil)
+			x.frameCheck(st, ins, a.Key, a.Root, "", loc)
+		} else {
+			x.frameCheck(st, ins, "dyn:", v.T, "", loc)
+		}
+	case strings.HasPrefix(loc, "global "):
+		x.frameCheck(st, ins, "global:"+strings.TrimSpace(strings.TrimPrefix(loc, "global ")), "0", "", loc)
+	default:
+		whole := strings.HasSuffix(loc, "[..]")
+		l2 := strings.TrimSuffix(strings.TrimSuffix(loc, ".*"), "[..]")
+		e, err := ParseExpr(l2)
+		if err != nil {
+			return
+		}
+		if whole || e.Op == "slice" {
+			var sv Value
+			if whole {
+				sv = sc.eval(e)
+			} else {
+				sv = sc.eval(e.Args[0])
+			}
+			if sv.K == VSlice {
+				key, _ := elemKeyOf(sv.Ty)
+				x.frameCheck(st, ins, key, sv.Arr, "", "elements "+loc)
+			}
+			return
+		}
+		a := sc.evalAddr(e)
+		x.frameCheck(st, ins, a.Key, a.Root, "", loc)
+	}
+}
